@@ -558,7 +558,7 @@ impl Scenario for Full {
                         env.cov.probe("obs_clear_while_prefix_pending_and_modifier_held");
                     }
                     kb.clear();
-                    mir.ps2.clear();
+                    let _ = mir.ps2.clear();
                     fr.clear();
                     env.cov.api_calls += 2;
                 }
@@ -1105,9 +1105,17 @@ impl Scenario for Chaos {
                 Op::Clear => {
                     bits_since_clear = 0;
                     match obj {
-                        4 => kb1.clear(),
-                        5 => kb2.clear(),
-                        _ => ps2.clear(),
+                        // (statements, not expressions: a clear() that starts returning something is
+                        // still source-compatible for callers and must stay so for this harness)
+                        4 => {
+                            let _ = kb1.clear();
+                        }
+                        5 => {
+                            let _ = kb2.clear();
+                        }
+                        _ => {
+                            let _ = ps2.clear();
+                        }
                     }
                 }
                 Op::Ev { key, st } => {
